@@ -1,4 +1,5 @@
 import Isotp.PyAgree.EvalLemmas
+import Isotp.Pdu
 /-!
   `PDU.__init__` (isotp/protocol.py), as dumped in `Src.PDU_init`, is the model's `decode`, for ALL byte lists and start offsets.
 
@@ -43,5 +44,342 @@ theorem be32 (a b c e : Nat) (hb : b < 256) (hc : c < 256) (he : e < 256) :
   rw [or_eq_add (a * 16777216) (b * 65536) 24 (by omega) (by omega),
     or_eq_add (a * 16777216 + b * 65536) (c * 256) 16 (by omega) (by omega),
     or_eq_add (a * 16777216 + b * 65536 + c * 256) e 8 (by omega) (by omega)]
+
+/-! ### value-level evaluation lemmas -/
+
+theorem cmp_lt_pint (a b : Int) : evalCmp .lt (pint a) (pint b) = .ok (pbool (decide (a < b))) := rfl
+theorem cmp_gt_pint (a b : Int) : evalCmp .gt (pint a) (pint b) = .ok (pbool (decide (b < a))) := rfl
+theorem beq_int (a b : Int) : (a == b) = decide (a = b) := by
+  by_cases h : a = b
+  · subst h; simp
+  · have : (a == b) = false := by rw [beq_eq_false_iff_ne]; exact h
+    simp [this, h]
+theorem cmp_le_pint (a b : Int) : evalCmp .le (pint a) (pint b) = .ok (pbool (decide (a ≤ b))) := by
+  have e : evalCmp .le (pint a) (pint b) = .ok (pbool (decide (a < b) || (a == b))) := rfl
+  rw [e, beq_int]; congr 3; rw [Bool.eq_iff_iff]; simp; omega
+theorem cmp_ge_pint (a b : Int) : evalCmp .ge (pint a) (pint b) = .ok (pbool (decide (b ≤ a))) := by
+  have e : evalCmp .ge (pint a) (pint b) = .ok (pbool (decide (b < a) || (a == b))) := rfl
+  rw [e, beq_int]; congr 3; rw [Bool.eq_iff_iff]; simp; omega
+theorem cmp_eq_pint (a b : Int) : evalCmp .eq (pint a) (pint b) = .ok (pbool (decide (a = b))) := by
+  rw [evalCmp_eq, pvEq_pint, beq_int]
+theorem cmp_ne_pint (a b : Int) : evalCmp .ne (pint a) (pint b) = .ok (pbool (decide (a ≠ b))) := by
+  rw [evalCmp_ne, pvEq_pint, beq_int]; simp
+
+theorem bi_len (b : Bytes) : evalBuiltin "len" [.bytes b] = some (.ok (pint b.length)) := rfl
+theorem bi_int (i : Int) : evalBuiltin "int" [pint i] = some (.ok (pint i)) := rfl
+theorem bi_bytes0 : evalBuiltin "bytes" [] = some (.ok (.bytes [])) := rfl
+theorem bi_max8 (n : Nat) : evalBuiltin "max" [pint 8, pint n] = some (.ok (pint (max 8 n : Nat))) := by
+  have e : evalBuiltin "max" [pint 8, pint n] = some (.ok (if (n : Int) > 8 then pint n else pint 8)) := rfl
+  rw [e]; congr 2
+  by_cases h : (n : Int) > 8
+  · rw [if_pos h, show max 8 n = n by omega]
+  · rw [if_neg h, show max 8 n = 8 by omega]; rfl
+/-- `min(self.length, datalen - k)` -/
+theorem bi_min_sub (l n : Nat) (k : Int) (hk : 0 ≤ k) (hkn : k ≤ n) :
+    evalBuiltin "min" [pint l, pint ((n : Int) - k)] = some (.ok (pint (min l (n - k.toNat) : Nat))) := by
+  have e : evalBuiltin "min" [pint l, pint ((n : Int) - k)]
+      = some (.ok (if ((n : Int) - k) < l then pint ((n : Int) - k) else pint l)) := rfl
+  rw [e]; congr 2; split <;> (congr 3; omega)
+
+theorem natIdx_int (i : Int) (h : 0 ≤ i) : natIdx (pint i) = .ok i.toNat := by
+  have h' : ¬ i < 0 := by omega
+  simp [natIdx, asInt, Sc.isInt, Sc.intVal, PyVal.isInt, PyVal.intVal, h']
+
+/-- `b[k]` in bounds -/
+theorem index_ok (b : Bytes) (k : Nat) (hk : k < b.length) :
+    (if h : k < b.length then (Except.ok (pint ((b[k]'h).toNat : Nat)) : Except PErr PV) else .error (.exc .IndexError))
+      = .ok (pint (byteAt b k)) := by
+  rw [dif_pos hk, byteAt_eq_getElem]
+
+theorem shr4_ev (x : Nat) : evalBinop .shr (pint x) (pint 4) = .ok (pint ((x / 16 : Nat))) := by
+  rw [evalBinop_shr _ _ (Int.natCast_nonneg _) (by decide)]; simp [shr4]
+theorem band15_ev (x : Nat) : evalBinop .band (pint x) (pint 15) = .ok (pint ((x % 16 : Nat))) := by
+  rw [evalBinop_band _ _ (Int.natCast_nonneg _) (by decide)]; simp [and_f]
+theorem shl_ev (x : Nat) (k : Int) (hk : 0 ≤ k) : evalBinop .shl (pint x) (pint k) = .ok (pint ((x <<< k.toNat : Nat))) := by
+  rw [evalBinop_shl _ _ (Int.natCast_nonneg _) hk]; simp
+theorem bor_ev (x y : Nat) : evalBinop .bor (pint x) (pint y) = .ok (pint ((x ||| y : Nat))) := by
+  rw [evalBinop_bor _ _ (Int.natCast_nonneg _) (Int.natCast_nonneg _)]; simp
+theorem truediv_ev (x y : Int) (hy : 0 < y) :
+    evalBinop .truediv (pint x) (pint y) = .ok (.sc (.py (.float x y.natAbs))) := by
+  have h1 : ¬ y = 0 := by omega
+  have h2 : ¬ y < 0 := by omega
+  simp [evalBinop, asInt, Sc.isInt, Sc.intVal, PyVal.isInt, PyVal.intVal, h1, h2]
+
+theorem raise_VE (M : Meths) (env : Env) : execStmt M env (.raise "ValueError") = .error (.exc .ValueError) := rfl
+theorem float_beq_none (a : Int) (b : Nat) : ((PV.sc (.py (.float a b))) == pnone) = false := rfl
+theorem none_beq_none : (pnone == pnone) = true := rfl
+
+theorem set_apply (env : Env) (k : String) (v : PV) (k' : String) :
+    (env.set k v) k' = if k' = k then some v else env k' := rfl
+
+theorem ite_decide_pos {α : Sort _} {c : Prop} [Decidable c] (a b : α) (h : c) : (if decide c = true then a else b) = a := by
+  simp [h]
+theorem ite_decide_neg {α : Sort _} {c : Prop} [Decidable c] (a b : α) (h : ¬ c) : (if decide c = true then a else b) = b := by
+  simp [h]
+theorem ite_tt {α : Sort _} (a b : α) : (if true = true then a else b) = a := rfl
+theorem ite_ff {α : Sort _} (a b : α) : (if false = true then a else b) = b := rfl
+
+/-- a block of one statement -/
+theorem execBlock_single (M : Meths) (env : Env) (s : PStmt) : execBlock M env (.cons s .nil) = execStmt M env s := by
+  simp only [execBlock]
+  cases execStmt M env s with
+  | error e => rfl
+  | ok f => cases f <;> rfl
+
+/-- symbolic evaluation of a block: unfold the interpreter, evaluate at the level of Python values, decide the guards by `omega` -/
+macro "pdu_eval" "[" ts:Lean.Parser.Tactic.simpLemma,* "]" : tactic =>
+  `(tactic| simp (disch := omega) only [↓execBlock_single, decide_true, decide_false, execBlock, execStmt, eval, evalArgs, ok_bind, error_bind, set_apply, String.reduceEq,
+      ↓reduceIte, cmp_lt_pint, cmp_gt_pint, cmp_le_pint, cmp_ge_pint, cmp_eq_pint, cmp_ne_pint, bi_len, bi_int, bi_bytes0,
+      bi_max8, bi_min_sub, natIdx_int, index_ok, shr4_ev, band15_ev, shl_ev, bor_ev, truediv_ev, evalBinop_sub, raise_VE,
+      float_beq_none, none_beq_none, ite_decide_pos, ite_decide_neg, ite_tt, ite_ff, truthy_pbool, Int.toNat_natCast,
+      Int.reduceToNat, shl8_or, be32, $ts,*])
+
+/-! ### the source, cut along its structure -/
+
+def bdrop : Nat → PBlock → PBlock
+  | 0, b => b
+  | _ + 1, .nil => .nil
+  | n + 1, .cons _ r => bdrop n r
+def bhead : PBlock → PStmt
+  | .cons s _ => s
+  | .nil => .pass
+def thenOf : PStmt → PBlock
+  | .ite _ t _ => t
+  | _ => .nil
+def elseOf : PStmt → PBlock
+  | .ite _ _ e => e
+  | _ => .nil
+
+/-- `if datalen > 0: hnb = ...; ...; self.type = int(hnb)  else: raise` -/
+def hnbStmt : PStmt := bhead (bdrop 13 Src.PDU_init)
+/-- `if self.type == SINGLE_FRAME: ... elif ... else: raise` -/
+def dispatchStmt : PStmt := bhead (bdrop 14 Src.PDU_init)
+def sfBranch : PBlock := thenOf dispatchStmt
+def ffStmt : PStmt := bhead (elseOf dispatchStmt)
+def ffBranch : PBlock := thenOf ffStmt
+def cfStmt : PStmt := bhead (elseOf ffStmt)
+def cfBranch : PBlock := thenOf cfStmt
+def fcStmt : PStmt := bhead (elseOf cfStmt)
+def fcBranch : PBlock := thenOf fcStmt
+
+theorem PDU_init_shape : Src.PDU_init =
+    (.cons (.assign "self.data" (.call "bytes" .nil))
+    (.cons (.assign "self.length" .none)
+    (.cons (.assign "self.blocksize" .none)
+    (.cons (.assign "self.stmin" .none)
+    (.cons (.assign "self.stmin_sec" .none)
+    (.cons (.assign "self.seqnum" .none)
+    (.cons (.assign "self.flow_status" .none)
+    (.cons (.assign "self.escape_sequence" .ff)
+    (.cons (.ite (.cmp .lt (.call "len" (.cons (.var "msg.data") .nil)) (.var "start_of_data")) (.cons (.raise "ValueError") .nil) .nil)
+    (.cons (.assign "self.can_dl" (.call "len" (.cons (.var "msg.data") .nil)))
+    (.cons (.assign "self.rx_dl" (.call "max" (.cons (.int (8)) (.cons (.var "self.can_dl") .nil))))
+    (.cons (.assign "msg_data" (.sliceFrom (.var "msg.data") (.var "start_of_data")))
+    (.cons (.assign "datalen" (.call "len" (.cons (.var "msg_data") .nil)))
+    (.cons hnbStmt (.cons dispatchStmt .nil))))))))))))))) := rfl
+
+theorem dispatch_shape : dispatchStmt =
+    .ite (.cmp .eq (.var "self.type") (.var "self.Type.SINGLE_FRAME")) sfBranch
+    (.cons (.ite (.cmp .eq (.var "self.type") (.var "self.Type.FIRST_FRAME")) ffBranch
+    (.cons (.ite (.cmp .eq (.var "self.type") (.var "self.Type.CONSECUTIVE_FRAME")) cfBranch
+    (.cons (.ite (.cmp .eq (.var "self.type") (.var "self.Type.FLOW_CONTROL")) fcBranch
+    (.cons (.raise "ValueError") .nil)) .nil)) .nil)) .nil) := rfl
+
+/-! ### environments -/
+
+/-- the arguments of `PDU.__init__(self, msg, start_of_data)`; `self` only has its class constants -/
+def pduEnv (data : Bytes) (start : Nat) : Env := fun k =>
+  match k with
+  | "msg.data" => some (.bytes data)
+  | "start_of_data" => some (pint start)
+  | _ => constEnv k
+
+theorem pduEnv_data (data : Bytes) (start : Nat) : pduEnv data start "msg.data" = some (.bytes data) := rfl
+theorem pduEnv_start (data : Bytes) (start : Nat) : pduEnv data start "start_of_data" = some (pint start) := rfl
+theorem pduEnv_t0 (data : Bytes) (start : Nat) : pduEnv data start "self.Type.SINGLE_FRAME" = some (pint 0) := rfl
+theorem pduEnv_t1 (data : Bytes) (start : Nat) : pduEnv data start "self.Type.FIRST_FRAME" = some (pint 1) := rfl
+theorem pduEnv_t2 (data : Bytes) (start : Nat) : pduEnv data start "self.Type.CONSECUTIVE_FRAME" = some (pint 2) := rfl
+theorem pduEnv_t3 (data : Bytes) (start : Nat) : pduEnv data start "self.Type.FLOW_CONTROL" = some (pint 3) := rfl
+
+/-- the object after the prologue (up to `datalen = len(msg_data)`) -/
+def envPrologue (data : Bytes) (start : Nat) : Env :=
+  ((((((((((((pduEnv data start).set "self.data" (.bytes [])).set "self.length" pnone).set "self.blocksize" pnone).set
+    "self.stmin" pnone).set "self.stmin_sec" pnone).set "self.seqnum" pnone).set "self.flow_status" pnone).set
+    "self.escape_sequence" (pbool false)).set "self.can_dl" (pint data.length)).set "self.rx_dl" (pint (max 8 data.length : Nat))).set
+    "msg_data" (.bytes (data.drop start))).set "datalen" (pint (data.drop start).length)
+
+/-- what the branches need to know about the environment they start in -/
+structure Ready (env : Env) (d : Bytes) : Prop where
+  md : env "msg_data" = some (.bytes d)
+  dl : env "datalen" = some (pint d.length)
+  ss : env "self.stmin_sec" = some pnone
+  es : env "self.escape_sequence" = some (pbool false)
+  t0 : env "self.Type.SINGLE_FRAME" = some (pint 0)
+  t1 : env "self.Type.FIRST_FRAME" = some (pint 1)
+  t2 : env "self.Type.CONSECUTIVE_FRAME" = some (pint 2)
+  t3 : env "self.Type.FLOW_CONTROL" = some (pint 3)
+
+theorem ready_prologue (data : Bytes) (start : Nat) : Ready (envPrologue data start) (data.drop start) := by
+  constructor <;> simp only [envPrologue, set_apply, String.reduceEq, ↓reduceIte, pduEnv_t0, pduEnv_t1, pduEnv_t2, pduEnv_t3]
+
+/-! ### stage 1: the prologue -/
+
+theorem prologue_reject (data : Bytes) (start : Nat) (h : data.length < start) :
+    execBlock noMeths (pduEnv data start) Src.PDU_init = .error (.exc .ValueError) := by
+  rw [PDU_init_shape]
+  pdu_eval [pduEnv_data, pduEnv_start]
+
+theorem prologue_ok (data : Bytes) (start : Nat) (h : ¬ data.length < start) :
+    execBlock noMeths (pduEnv data start) Src.PDU_init
+      = execBlock noMeths (envPrologue data start) (.cons hnbStmt (.cons dispatchStmt .nil)) := by
+  rw [PDU_init_shape]
+  pdu_eval [pduEnv_data, pduEnv_start]
+  rfl
+
+/-! ### stage 2: the frame type `hnb = (msg_data[0] >> 4) & 0xF` -/
+
+def envHnb (env : Env) (d : Bytes) : Env :=
+  (env.set "hnb" (pint (byteAt d 0 / 16 : Nat))).set "self.type" (pint (byteAt d 0 / 16 : Nat))
+
+theorem hnb_empty (env : Env) (d : Bytes) (hr : Ready env d) (h : d.length = 0) :
+    execStmt noMeths env hnbStmt = .error (.exc .ValueError) := by
+  simp only [hnbStmt, bhead, bdrop, Src.PDU_init]
+  pdu_eval [hr.md, hr.dl]
+
+theorem hnb_unknown (env : Env) (d : Bytes) (hr : Ready env d) (h : 0 < d.length) (h3 : 3 < byteAt d 0 / 16) :
+    execStmt noMeths env hnbStmt = .error (.exc .ValueError) := by
+  have hb := byteAt_lt d 0
+  simp only [hnbStmt, bhead, bdrop, Src.PDU_init]
+  pdu_eval [hr.md, hr.dl]
+
+theorem hnb_ok (env : Env) (d : Bytes) (hr : Ready env d) (h : 0 < d.length) (h3 : byteAt d 0 / 16 ≤ 3) :
+    execStmt noMeths env hnbStmt = .ok (.next (envHnb env d)) := by
+  have hb := byteAt_lt d 0
+  have e : byteAt d 0 / 16 % 16 = byteAt d 0 / 16 := by omega
+  simp only [hnbStmt, bhead, bdrop, Src.PDU_init]
+  pdu_eval [hr.md, hr.dl, e]
+  rfl
+
+theorem ready_hnb (env : Env) (d : Bytes) (hr : Ready env d) : Ready (envHnb env d) d := by
+  constructor <;> simp only [envHnb, set_apply, String.reduceEq, ↓reduceIte, hr.md, hr.dl, hr.ss, hr.es, hr.t0, hr.t1, hr.t2, hr.t3]
+
+theorem envHnb_type (env : Env) (d : Bytes) : envHnb env d "self.type" = some (pint (byteAt d 0 / 16 : Nat)) := by
+  simp only [envHnb, set_apply, ↓reduceIte]
+
+/-! ### stage 3: the dispatch on `self.type` -/
+
+theorem dispatch_sf (env : Env) (d : Bytes) (hr : Ready env d) (ht : env "self.type" = some (pint 0)) :
+    execStmt noMeths env dispatchStmt = execBlock noMeths env sfBranch := by
+  rw [dispatch_shape]; pdu_eval [ht, hr.t0, hr.t1, hr.t2, hr.t3]
+
+theorem dispatch_ff (env : Env) (d : Bytes) (hr : Ready env d) (ht : env "self.type" = some (pint 1)) :
+    execStmt noMeths env dispatchStmt = execBlock noMeths env ffBranch := by
+  rw [dispatch_shape]; pdu_eval [ht, hr.t0, hr.t1, hr.t2, hr.t3]
+
+theorem dispatch_cf (env : Env) (d : Bytes) (hr : Ready env d) (ht : env "self.type" = some (pint 2)) :
+    execStmt noMeths env dispatchStmt = execBlock noMeths env cfBranch := by
+  rw [dispatch_shape]; pdu_eval [ht, hr.t0, hr.t1, hr.t2, hr.t3]
+
+theorem dispatch_fc (env : Env) (d : Bytes) (hr : Ready env d) (ht : env "self.type" = some (pint 3)) :
+    execStmt noMeths env dispatchStmt = execBlock noMeths env fcBranch := by
+  rw [dispatch_shape]; pdu_eval [ht, hr.t0, hr.t1, hr.t2, hr.t3]
+
+/-! ### stage 4: one lemma per frame-type branch -/
+
+/-- the attributes a decoded PDU of each kind carries -/
+def pduFields : Pdu → List (String × PV)
+  | .sf len data esc => [("self.length", pint len), ("self.data", .bytes data), ("self.escape_sequence", pbool esc)]
+  | .ff len data esc => [("self.length", pint len), ("self.data", .bytes data), ("self.escape_sequence", pbool esc)]
+  | .cf sn data => [("self.seqnum", pint sn), ("self.data", .bytes data)]
+  | .fc status bs stmin => [("self.flow_status", pint status), ("self.blocksize", pint bs), ("self.stmin", pint stmin)]
+
+/-- `PDU.Type` value -/
+def typeCode : Pdu → Nat
+  | .sf .. => 0 | .ff .. => 1 | .cf .. => 2 | .fc .. => 3
+
+def isFc : Pdu → Bool
+  | .fc .. => true | _ => false
+
+/-- after a branch: the decoded fields are set, `can_dl` / `rx_dl` / `type` are untouched, and a Flow Control has a `stmin_sec` -/
+structure Post (env env' : Env) (p : Pdu) : Prop where
+  fields : ∀ kv ∈ pduFields p, env' kv.1 = some kv.2
+  canDl : env' "self.can_dl" = env "self.can_dl"
+  rxDl : env' "self.rx_dl" = env "self.rx_dl"
+  type : env' "self.type" = env "self.type"
+  stminSec : isFc p = true → ∃ v, env' "self.stmin_sec" = some v ∧ v ≠ pnone
+
+/-- a branch agrees with the model on the body `d` -/
+def Outcome (env : Env) (k : Nat) (r : Except PErr Flow) : Option Pdu → Prop
+  | none => r = .error (.exc .ValueError)
+  | some p => typeCode p = k ∧ ∃ env', r = .ok (.next env') ∧ Post env env' p
+
+theorem validStmin_eq (st : Nat) : (validStmin st = true) = (st ≤ 127 ∨ (241 ≤ st ∧ st ≤ 249)) := by
+  simp [validStmin]
+
+/-- one leaf of the case split: evaluate the model, then the source -/
+macro "leaf" "[" ts:Lean.Parser.Tactic.simpLemma,* "]" : tactic =>
+  `(tactic| (simp (disch := omega) only [decodeBody, validStmin_eq, if_pos, if_neg, ne_eq, Outcome]; pdu_eval [$ts,*]))
+
+/-- close a `Post` goal on an explicit environment -/
+macro "post_tac" "[" ts:Lean.Parser.Tactic.simpLemma,* "]" : tactic =>
+  `(tactic| (constructor <;> simp [pduFields, isFc, set_apply, $ts,*]))
+
+theorem sf_branch (env : Env) (d : Bytes) (hr : Ready env d) (hn : 0 < d.length) (h0 : byteAt d 0 / 16 = 0) :
+    Outcome env 0 (execBlock noMeths env sfBranch) (decodeBody d) := by
+  have hb0 := byteAt_lt d 0
+  have hb1 := byteAt_lt d 1
+  simp only [sfBranch, thenOf, dispatchStmt, bhead, bdrop, Src.PDU_init]
+  by_cases hlp : byteAt d 0 % 16 = 0
+  · by_cases h2 : d.length < 2
+    · leaf [hr.md, hr.dl]
+    · by_cases hl0 : byteAt d 1 = 0
+      · leaf [hr.md, hr.dl]
+      · by_cases hl : byteAt d 1 > d.length - 2
+        · leaf [hr.md, hr.dl]
+        · leaf [hr.md, hr.dl]
+          exact ⟨rfl, _, rfl, by post_tac []⟩
+  · by_cases hl : byteAt d 0 % 16 > d.length - 1
+    · leaf [hr.md, hr.dl]
+    · leaf [hr.md, hr.dl]
+      exact ⟨rfl, _, rfl, by post_tac [hr.es]⟩
+
+theorem ff_branch (env : Env) (d : Bytes) (hr : Ready env d) (hn : 0 < d.length) (h0 : byteAt d 0 / 16 = 1) :
+    Outcome env 1 (execBlock noMeths env ffBranch) (decodeBody d) := by
+  have hb0 := byteAt_lt d 0
+  have hb1 := byteAt_lt d 1
+  have hb3 := byteAt_lt d 3
+  have hb4 := byteAt_lt d 4
+  have hb5 := byteAt_lt d 5
+  simp only [ffBranch, ffStmt, elseOf, thenOf, dispatchStmt, bhead, bdrop, Src.PDU_init]
+  by_cases h2 : d.length < 2
+  · leaf [hr.md, hr.dl]
+  · by_cases hlp : byteAt d 0 % 16 * 256 + byteAt d 1 = 0
+    · by_cases h6 : d.length < 6
+      · leaf [hr.md, hr.dl]
+      · leaf [hr.md, hr.dl]
+        exact ⟨rfl, _, rfl, by post_tac []⟩
+    · leaf [hr.md, hr.dl]
+      exact ⟨rfl, _, rfl, by post_tac [hr.es]⟩
+
+theorem cf_branch (env : Env) (d : Bytes) (hr : Ready env d) (hn : 0 < d.length) (h0 : byteAt d 0 / 16 = 2) :
+    Outcome env 2 (execBlock noMeths env cfBranch) (decodeBody d) := by
+  simp only [cfBranch, cfStmt, ffStmt, elseOf, thenOf, dispatchStmt, bhead, bdrop, Src.PDU_init]
+  leaf [hr.md, hr.dl]
+  exact ⟨rfl, _, rfl, by post_tac []⟩
+
+theorem fc_branch (env : Env) (d : Bytes) (hr : Ready env d) (hn : 0 < d.length) (h0 : byteAt d 0 / 16 = 3) :
+    Outcome env 3 (execBlock noMeths env fcBranch) (decodeBody d) := by
+  simp only [fcBranch, fcStmt, cfStmt, ffStmt, elseOf, thenOf, dispatchStmt, bhead, bdrop, Src.PDU_init]
+  by_cases h3 : d.length < 3
+  · leaf [hr.md, hr.dl]
+  · by_cases hfs : byteAt d 0 % 16 ≥ 3
+    · leaf [hr.md, hr.dl]
+    · by_cases hs1 : byteAt d 2 ≤ 127
+      · leaf [hr.md, hr.dl, hr.ss]
+        exact ⟨rfl, _, rfl, by post_tac [float_beq_none]⟩
+      · by_cases hs2 : 241 ≤ byteAt d 2 ∧ byteAt d 2 ≤ 249
+        · leaf [hr.md, hr.dl, hr.ss]
+          exact ⟨rfl, _, rfl, by post_tac [float_beq_none]⟩
+        · leaf [hr.md, hr.dl, hr.ss]
 
 end Isotp.PyAgree
